@@ -7,8 +7,8 @@
    theorems hold for EVERY such oracle, the reading "non-numeric, non-empty strings" is the
    hypothesis [value_ok]. *)
 From Coq Require Import ZArith List Lia Bool String Ascii Sorted Permutation.
-From PV Require Import Base.Tok Base.NpSearch Base.NpList C16.Model C16.Spec C03.Model C03.Spec
-                       C10.Model C10.Spec C10.Proofs C10.Proofs2 C10.Proofs3 C10.Proofs4.
+From PV Require Import Base.Tok Base.NpSearch Base.NpList C16.Model C16.Spec C03.Model C03.Spec C03.Proofs2
+                       C10.Model C10.Spec C10.Proofs C10.Proofs2 C10.Proofs3 C10.Proofs4 C10.Proofs5.
 Import ListNotations.
 Local Open Scope Z_scope.
 
@@ -269,6 +269,42 @@ Theorem C10_subset_meaning :
 Proof. exact expected_store_meaning. Qed.
 Print Assumptions C10_subset_meaning.
 
+(* look-ups through the reloaded store (get_waveforms answered from it): for every queried id of the
+   selection (any order, repetitions allowed) and every non-empty channel query, get_spike_waveforms
+   returns C03's [lookup_window] of the spike the id refers to -- by C03's store theorem ... *)
+Theorem C10_subset_lookup :
+  forall (classify : string -> cell) (d0 : disk) (pre post : list op) (data : list (list Z))
+         (ids : list Z) (w : Z) (l : loaded) (q_ids q_ch : list Z),
+  rest_ok (d_rest d0) -> r_raw (d_rest d0) = Some data -> ids_ok (d_rest d0) ids -> 0 <= w ->
+  Forall (fun o => op_subset o = None) post ->
+  view (run classify d0 (pre ++ SaveSubset ids w :: post)) = Some l ->
+  Forall (fun x => In x ids) q_ids -> q_ch <> [] -> Forall (fun ch => -1 <= ch) q_ch ->
+  exists st spikes sps,
+    v_store l = Some st /\ mapM (subset_spike (d_rest d0) w) ids = Some spikes /\
+    Forall2 (refers ids spikes) q_ids sps /\
+    get_spike_waveforms 0 q_ids q_ch st (r_nsw (d_rest d0)) =
+    Some (map (fun sp => lookup_window 0 idZ data (r_nsw (d_rest d0)) sp q_ch) sps).
+Proof. exact subset_lookup. Qed.
+Print Assumptions C10_subset_lookup.
+
+(* ... which, when the queried channels other than -1 are pairwise distinct, is the raw window on the
+   channels stored for the spike and zero on the others: "subset-store waveforms equal to those read
+   from the raw data" (what correspondence clause 27 judges) *)
+Theorem C10_subset_lookup_raw_window :
+  forall (classify : string -> cell) (d0 : disk) (pre post : list op) (data : list (list Z))
+         (ids : list Z) (w : Z) (l : loaded) (q_ids q_ch : list Z),
+  rest_ok (d_rest d0) -> r_raw (d_rest d0) = Some data -> ids_ok (d_rest d0) ids -> 0 <= w ->
+  Forall (fun o => op_subset o = None) post ->
+  view (run classify d0 (pre ++ SaveSubset ids w :: post)) = Some l ->
+  Forall (fun x => In x ids) q_ids -> q_ch <> [] -> Forall (fun ch => -1 <= ch) q_ch -> distinct_real q_ch ->
+  exists st spikes sps,
+    v_store l = Some st /\ mapM (subset_spike (d_rest d0) w) ids = Some spikes /\
+    Forall2 (refers ids spikes) q_ids sps /\
+    get_spike_waveforms 0 q_ids q_ch st (r_nsw (d_rest d0)) =
+    Some (map (fun sp => masked_window 0 idZ data (r_nsw (d_rest d0)) sp q_ch) sps).
+Proof. exact subset_lookup_masked. Qed.
+Print Assumptions C10_subset_lookup_raw_window.
+
 (* without a raw data file nothing is extracted and the store files stay as they were *)
 Theorem C10_subset_needs_raw :
   forall (classify : string -> cell) (d0 : disk) (ops : list op),
@@ -323,3 +359,14 @@ Proof. vm_compute. reflexivity. Qed.
 Example C10_ex_subset_premises :
   tiles_b 6 (r_chunks ex_rest) = true /\ sortedZb (r_samples ex_rest) = true.
 Proof. vm_compute. split; reflexivity. Qed.
+
+(* a look-up through the reloaded store: spike 2 on channels [0; 1] (channel 0 is not stored for it) *)
+Example C10_ex_lookup :
+  match view (run CText ex_d0 [SaveSubset [0; 2] 3; Reload]) with
+  | Some l => match v_store l with
+              | Some st => get_spike_waveforms 0 [2] [0; 1] st 2
+              | None => None
+              end
+  | None => None
+  end = Some [[[0; 32]; [0; 42]]].
+Proof. vm_compute. reflexivity. Qed.
